@@ -24,9 +24,26 @@ CLAIMS = {
         'at non-zero times with nested pauses; code level: each recorded pause/unpause/cancel call (from outside or from an '
         'event body) must map the logged pre-state to the logged post-state exactly as the operator prescribes.',
    technique='TLA+ closed spec model-checked with TLC + TLC trace validation of real Environment runs'),
+ 'C09': dict(engine='pools', ref='DESIGN.md 6 (C09), 3.3',
+   text='TLC model-checks the closed pool specification PoolsMC (every sequence of add/remove capacity before and after initialisation, '
+        'single and multi-entry reserve with zero, negative and unknown entries, full, partial, repeated and invalid release, merge, waiting '
+        'requests whose callbacks reserve, release and register) against usage = sum of holdings, non-negative capacity, over-commitment '
+        'only after an explicit reduction; the behaviours TLC generates and longer seeded random sequences are executed on the real '
+        'ResourceManager / ReservedResources bound to a real Environment, and TLC validates every recorded call against the relations '
+        'of PoolsTrace.tla (succeeds iff fits, takes exactly, failed or erroneous calls change nothing, release gives back exactly, merge '
+        'keeps usage) evaluated on the logged pre-state.',
+   technique='TLA+ closed spec model-checked with TLC + TLC trace validation of real ResourceManager runs (spec behaviours replayed on the code)'),
+ 'C10': dict(engine='pools', ref='DESIGN.md 6 (C10), 3.3',
+   text='Same pipeline as C09. Design level: callbacks at most once, clock advances only when no feasible request waits, every registration, '
+        'capacity change and release leaves a check pending, over all interleavings including calls made by callbacks. Code level: for every '
+        'dispatched event of the real Environment the callbacks that ran are logged with the pool as each found and left it; TLC checks that '
+        'each was feasible at that moment, that they ran in registration order, exactly once, with the manager and a copy of the request, that '
+        'skipped waiters did not fit when scanned, and that no feasible waiter is left when the clock advances.',
+   technique='TLA+ closed spec model-checked with TLC + TLC trace validation of real ResourceManager/Environment runs'),
 }
 
 ENGINES = {
+ 'pools': dict(name='pools', path='harness/p_pools.py', kind_free_text='Pools.tla / PoolsMC.tla (closed, exhaustive + simulate) / PoolsTrace.tla (trace validation); driver harness/pools_driver.py'),
  'kernel': dict(name='kernel', path='harness/p_kernel.py', kind_free_text='Kernel.tla / KernelMC.tla (closed, exhaustive + simulate) / KernelTrace.tla (trace validation); driver harness/kernel_driver.py'),
 }
 
